@@ -349,7 +349,8 @@ Cands(s) ==
     \cup {[a |-> "AddDir", d |-> d] : d \in Par.dirs \ s.dirs}
     \cup {[a |-> "RmDir", d |-> d] : d \in s.dirs}
     \cup {AE(f, spec) : f \in {m \in DOMAIN s.files : s.files[m].vis = "all"}, spec \in Par.boot}
-    \cup {[a |-> "RmEltorito"]}
+    \* (in the many-sections profile rm_eltorito is offered only once the catalog is full)
+    \cup (IF Par.maxent >= 32 /\ Len(s.elt.entries) < 32 THEN {} ELSE {[a |-> "RmEltorito"]})
     \cup {[a |-> "AddIsohybrid", spec |-> spec] : spec \in {x \in Par.hyb : HybApplicable(s, x)}}
     \cup (IF s.hyb.on THEN {[a |-> "RmIsohybrid"]} ELSE {})
     \cup (IF Par.hyb # {} /\ s.elt.on THEN {[a |-> "ForceConsistency"]} ELSE {})
